@@ -6,6 +6,7 @@ import (
 	"encoding/hex"
 	"encoding/json"
 	"fmt"
+	"math"
 	"os"
 	"sort"
 	"strings"
@@ -151,6 +152,19 @@ var c07Recipes = []c07Recipe{
 		return c07File(false, func(f *jen.File) {
 			f.ImportNames(map[string]string{"x.y/render": "render", "x.y/render/v2": "renderer", "x.y/render.v4": "rndr", "x.y/Render/v5": "big"})
 			f.Var().Id("_").Op("=").List(jen.Qual("x.y/render/v3", "X"), jen.Qual("x.y/render.v6", "X"), jen.Qual("x.y/render/v2", "X"), jen.Qual("x.y/render/v3/sub", "X"))
+		})
+	}},
+	// numeric literals that compare equal but are written differently: what one recipe renders
+	// must not depend on the other having been rendered before (the history pass runs both orders)
+	{"zero-literals", func(k func(jen.Code) jen.Code) jh.Outcome {
+		return c07File(false, func(f *jen.File) {
+			f.Var().Id("_").Op("=").Index().Any().Values(jen.Lit(0.0), jen.Lit(float32(0)), jen.Lit(complex(0, 0)), jen.Lit(complex64(0)), jen.Lit(1.0), jen.Lit(int8(1)))
+		})
+	}},
+	{"negative-zero-literals", func(k func(jen.Code) jen.Code) jh.Outcome {
+		return c07File(false, func(f *jen.File) {
+			nz := math.Copysign(0, -1)
+			f.Var().Id("_").Op("=").Index().Any().Values(jen.Lit(nz), jen.Lit(float32(nz)), jen.Lit(complex(nz, nz)), jen.Lit(complex64(complex(nz, 0))), jen.Lit(1), jen.Lit(uint8(1)))
 		})
 	}},
 	{"importnames-4", func(k func(jen.Code) jen.Code) jh.Outcome {
